@@ -143,7 +143,7 @@ def draw_single_params(rng, spec: Spec, desc: dict, *, lazy: bool | None = None,
         p["center"] = rng.random() < 0.85
     if spec.name == "ExtendedEOF":
         p["tau"] = rng.randint(1, 2)
-        p["embedding"] = rng.randint(1, 3)
+        p["embedding"] = rng.randint(2, 3)     # embedding=1 yields an empty matrix (slice(None, -0)): C10 territory
         S = gen.n_samples_total(desc) - (p["embedding"] - 1) * p["tau"]
         p["n_pca_modes"] = rng.choice([None, None, min(4, r)])
         F = (p["n_pca_modes"] or gen.n_features_total(desc)) * p["embedding"]
@@ -161,7 +161,8 @@ def draw_single_params(rng, spec: Spec, desc: dict, *, lazy: bool | None = None,
     if spec.name == "POP":
         p["use_pca"] = rng.random() < 0.7
         if p["use_pca"]:
-            p["n_pca_modes"] = rng.choice([2, 3, min(4, r), 0.9])
+            # (a fractional mode count needs the spectrum: documented ValueError for dask input)
+            p["n_pca_modes"] = rng.choice([2, 3, min(4, r), 0.9] if lazy is None else [2, 3, min(4, r), 3])
             p["pca_init_rank_reduction"] = 1.0
         if not p["use_pca"] and gen.n_features_total(desc) >= gen.n_samples_total(desc) - 1:
             p["use_pca"] = True
@@ -169,7 +170,7 @@ def draw_single_params(rng, spec: Spec, desc: dict, *, lazy: bool | None = None,
     if spec.name == "SparsePCA":
         p["alpha"] = rng.choice([1e-3, 1e-2, 0.0])
         p["beta"] = rng.choice([1e-3, 1e-4])
-        p["max_iter"] = rng.randint(3, 12) if small_iter else 100
+        p["max_iter"] = rng.randint(2, 5) if lazy is not None else (rng.randint(3, 12) if small_iter else 100)
         p["tol"] = 1e-9
         p["robust"] = False
         p["regularizer"] = rng.choice(["l1", "l1", "l0"])
